@@ -372,6 +372,11 @@ func verifRun(c *mon.Case) *mon.Result {
 	}
 	if c.Stats {
 		st.ExprCnt = c.StatsPre
+		if len(c.Input)%3 == 1 {
+			// a collector the caller prepared (counters of an earlier run loaded back to keep counting):
+			// some of its fields are set, others are still zero
+			st.ChoiceAltCnt = map[string]map[string]int{"Earlier 1:1": {"1": 2, "no match": 1}}
+		}
 		opts = append(opts, Statistics(&st, "no match"))
 	}
 	if c.StatsReused {
@@ -455,7 +460,10 @@ func verifRun(c *mon.Case) *mon.Result {
 	}
 {{if not .Optimized}}
 	if c.Stats {
-		for _, m := range st.ChoiceAltCnt {
+		for k, m := range st.ChoiceAltCnt {
+			if k == "Earlier 1:1" {
+				continue
+			}
 			for _, n := range m {
 				res.ChoiceEvals += n
 			}
